@@ -178,6 +178,43 @@ Proof.
   destruct (signed_message e (Some c) validity date expires); cbn [to_opt]; split; intros H; congruence.
 Qed.
 
+(* WITHOUT a certificate hash the library's message lacks the spec's "Otherwise
+   a 0 byte" - for every exchange, not just an example *)
+Theorem signed_message_b2b3_nocert_gap (e : exchange) (validity : bytes) (date expires : Z) (m : bytes) :
+  e_ver e <> V1b1 -> go_exchange e -> int64 (e_status e) ->
+  int64 date -> int64 expires -> go_len validity ->
+  (forall hdr, encode_exchange_headers e = Ok hdr -> lenN hdr < two64) ->
+  signed_message e None validity date expires = Ok m ->
+  exists rest, m = message_prefix (e_ver e) ++ rest /\
+    spec_message_b2b3 e None validity date expires = Some (message_prefix (e_ver e) ++ 0 :: rest).
+Proof.
+  intros Ev Hg Hz Hd Hx Hv Hh.
+  assert (Hvl : lenN validity < two64) by (unfold go_len, two63, two64 in *; lia).
+  assert (Hul : lenN (e_uri e) < two64) by (destruct Hg as [Hu _]; unfold go_len, two63, two64 in *; lia).
+  unfold spec_message_b2b3. rewrite (len8_be _ Hvl), (len8_be _ Hul), (time8_be _ Hd), (time8_be _ Hx),
+    (headers_cbor_eq e Hg Hz).
+  assert (E : signed_message e None validity date expires =
+    let* vl := be_encode (Z.of_N (lenN validity)) 8 in
+    let* d := be_encode date 8 in
+    let* x := be_encode expires 8 in
+    let* rl := be_encode (Z.of_N (lenN (e_uri e))) 8 in
+    let* hdr := encode_exchange_headers e in
+    let* hl := be_encode (Z.of_N (lenN hdr)) 8 in
+    Ok (message_prefix (e_ver e) ++ [] ++ vl ++ validity ++ d ++ x ++ rl ++ e_uri e ++ hl ++ hdr)).
+  { unfold signed_message, message_prefix.
+    destruct (e_ver e); [contradiction| |]; reflexivity. }
+  rewrite E. clear E.
+  rewrite (be_encode_8 (Z.of_N (lenN validity))), (be_encode_8 (Z.of_N (lenN (e_uri e)))).
+  replace (Z.of_N (lenN validity) <? 0)%Z with false by lia.
+  replace (Z.of_N (lenN (e_uri e)) <? 0)%Z with false by lia. cbn [bind to_opt].
+  destruct (be_encode date 8) as [d| | |]; cbn [bind to_opt]; try discriminate.
+  destruct (be_encode expires 8) as [x| | |]; cbn [bind to_opt]; try discriminate.
+  destruct (encode_exchange_headers e) as [hdr| | |] eqn:Eh; cbn [bind to_opt]; try discriminate.
+  rewrite (len8_be _ (Hh hdr eq_refl)).
+  destruct (be_encode (Z.of_N (lenN hdr)) 8) as [hl| | |]; cbn [bind to_opt]; try discriminate.
+  intros Hm. inversion Hm. eexists. split; reflexivity.
+Qed.
+
 (* a negative date / expires is refused by both *)
 Theorem signed_message_b2b3_negative (e : exchange) cert validity date expires :
   e_ver e <> V1b1 -> ((date < 0)%Z \/ (expires < 0)%Z) ->
